@@ -9,7 +9,18 @@ out=['# Seeded property-breaking changes','',
 'Each directory holds a change to johnkerl/miller written by an independent agent that saw ONLY the text of the property (and a scratch worktree of the repository), never anything from /verif: `patch.diff`, the author\'s demonstration (`demo.sh`, exits 1 with the change and 0 without), and `meta.json` (which property it breaks, what it needs in order to manifest, what was run). Each was confirmed by `lib/run-seeded.sh`: the patch applies to HEAD in a scratch worktree, compiles, the pinned unit packages pass, the demonstration fails with it and passes without it; then the named check(s) were run against the changed tree (`VERIF_REPO=<worktree> bin/verif check <ID> --tier quick`). None of these changes is ever committed to /repo.','',
 '| change | property | what it does | caught by (check: violation group) | note |','|---|---|---|---|---|']
 for r in rows: out.append('| '+' | '.join(r)+' |')
-n=len(rows); first=sum(1 for r in rows if r[4].startswith('caught as written'))
+def asw(note): return note.startswith('caught as written') or 'second-round change; caught as written' in note or note.startswith('not C') and 'caught as written' in note
+n=len(rows); first=sum(1 for r in rows if asw(r[4]))
+import collections
+tal=collections.OrderedDict()
+for r in rows:
+    pid,k=r[0].split('-'); rnd=1 if int(k)<=3 else 2
+    t=tal.setdefault(pid,{1:[0,0],2:[0,0]}); t[rnd][0]+=1; t[rnd][1]+=1 if asw(r[4]) else 0
+out+=['','## Tally','','Round 1: three changes per property. Round 2 (after the round-1 strengthening; the authors were told what had already been delivered and had to choose other mechanisms and locations): three more for the properties listed. "as written" = caught by the checks as they stood when the change arrived; every change in the table is caught now.','','| property | round 1: as written / delivered | round 2: as written / delivered |','|---|---|---|']
+for pid,t in tal.items():
+    out.append(f"| {pid} | {t[1][1]} / {t[1][0]} | "+(f"{t[2][1]} / {t[2][0]}" if t[2][0] else "-")+" |")
+r1=sum(t[1][1] for t in tal.values()),sum(t[1][0] for t in tal.values()); r2=sum(t[2][1] for t in tal.values()),sum(t[2][0] for t in tal.values())
+out.append(f"| all | {r1[0]} / {r1[1]} | {r2[0]} / {r2[1]} |")
 out+=['',f'{n} changes kept; {first} were caught by the checks as they stood when the change arrived, the others led to the strengthening described in the note (and are caught since).','']
 open('/verif/seeded/README.md','w').write('\n'.join(out))
 print(n,first)
